@@ -107,3 +107,17 @@ Example io_cost_example :
   io_cost [0; 3; 6; 9; 9; 7; 1; 2 ^ 32; 5] = [8; 16] /\
   snd (stride_split SEmpty [0; 3; 6; 9; 9; 7; 1; 2 ^ 32; 5]) = [7; 1; 2 ^ 32; 5].
 Proof. vm_compute. split; reflexivity. Qed.
+
+(** Exactly the documented shapes are free: a sequence of representable values costs no heap at all
+    IF AND ONLY IF it is empty, [0], or 0, s, 2s, ... followed by repeats of its last element. *)
+Theorem io_free_iff_shape l : Forall (fun x => x < W) l ->
+  (ic_used index_optimized (fold_left io_push l io_default) = [0; 0] <-> stride_shape l).
+Proof.
+  intros Hb. split.
+  - intros H0. apply io_cost_zero_iff in H0.
+    destruct (io_cost_split l) as (Hl & Hs & _). rewrite H0, app_nil_r in Hl. rewrite Hl. exact Hs.
+  - intros [->|[->|(s & c & r & Hc & ->)]]; [reflexivity|reflexivity|].
+    apply io_stride_free; [exact Hc|].
+    rewrite Forall_forall in Hb. apply Hb. apply in_or_app. left.
+    apply nth_error_In with (n := (c - 1)%nat). apply strides_nth. lia.
+Qed.
